@@ -153,6 +153,8 @@ def check_compute(fx, R, cq, cname, f):
         R.undecided('N1', inst + ':flip', 'conditional statements inside the per-point loop')
     elif not writes:
         R.undecided('N1', inst + ':flip', 'no write of normals[n] recognised: %s' % (body,))
+    elif (not flips or max(writes) > max(flips)) and any(mentions_normal(s_, n) and s_ != flip and not writes_normal(s_, n) for s_ in body[max(writes) + 1:]):
+        R.undecided('N1', inst + ':flip', 'the normal is treated after its write in a form that is not the enumerated flip call: %s' % ([s_ for s_ in body[max(writes) + 1:] if mentions_normal(s_, n)],))
     elif not flips or max(writes) > max(flips):
         R.violated('N1', '%s::%s:flip' % (short_fn(cq.split('<')[0]), 'compute/' + str(len(names)) + 'args'), 'in %s the normal written at statement %d of the iteration is not followed by flipNormalTowardOriginCoordinate(points[n], normals[n]) '
                    '(statements: %s): normals of this overload are not oriented toward the sensor' % (inst, max(writes), [s[0] if isinstance(s, tuple) else s for s in body]), loc, 'E-STATE')
@@ -201,6 +203,12 @@ def _sizes(t):
             return _sizes(t[1])
         return tuple(_sizes(x) for x in t)
     return t
+
+
+def mentions_normal(s, n):
+    if s == ('[]', 'normals', n):
+        return True
+    return isinstance(s, tuple) and any(mentions_normal(x, n) for x in s)
 
 
 def writes_normal(s, n):
